@@ -214,3 +214,66 @@ def run(chk, prog):
                    'continue_internal is reached only after validation',
                    'continue_async can reach continue_internal with has_validated_externals false and without calling '
                    'validate_external_bindings: unbound externals are discovered only when executed', ca.loc(0))
+    walker_covers_all_children(chk, prog, tr)
+
+
+def walker_covers_all_children(chk, prog, tr):
+    R5 = 'C12.binding-walk-covers-every-container'
+    chk.rule(R5, 'validate_external_bindings_container reaches every child container: the loop over `content` leaves out '
+             'children that have a valid name, so the other loop must go over the whole of Container::named_content '
+             '(which Container::new fills with exactly those children, C19.naming-agreement) - not over '
+             'get_named_only_content(), which excludes the named children that sit in `content` (an opening labelled '
+             'gather): external calls inside such a container would never be validated and an unbound one would only '
+             'fail when it is reached.')
+    # the walker is found by its role, not its name: the self-recursive function over a Container that
+    # validate_external_bindings starts
+    w = None
+    top = prog.fn('Story::validate_external_bindings')
+    if top is not None:
+        seen_, work_ = set(), [top]
+        while work_ and w is None:
+            f_ = work_.pop()
+            if f_.p in seen_:
+                continue
+            seen_.add(f_.p)
+            for bb, t in f_.calls():
+                h_ = prog.fns.get(callee(t))
+                if h_ is None or h_.crate != 'bladeink':
+                    continue
+                if any(callee(t2) == h_.p for _, t2 in h_.calls()) and any(
+                        'Container' in h_.local_ty(i + 1) for i in range(h_.body['argc'])):
+                    w = h_
+                    break
+                if len(seen_) < 6:
+                    work_.append(h_)
+    if not chk.anchor(R5, 'the recursive container walk started by Story::validate_external_bindings', w):
+        return
+    lt = Tracer(prog, transparent=lambda cs: True, use_summaries=False)
+    g = cfg(w)
+    loops = g.loops_heads()
+    rec_in_loop_over = {'content': False, 'named_content': False, 'named_only': False}
+    for h, tails in loops.items():
+        body = g.loop_body(h, tails)
+        recurses = any(w.blocks[b]['term'] and w.blocks[b]['term']['k'] == 'call'
+                       and callee(w.blocks[b]['term']) == w.p for b in body)
+        if not recurses:
+            continue
+        # what does this loop iterate?  the receiver of its next() call
+        for b in body:
+            t = w.blocks[b]['term']
+            if t and t['k'] == 'call' and callee_short(t).rsplit('::', 1)[-1] == 'next' and t['args']:
+                at = lt.prov(w, t['args'][0])
+                if 'via:Container::get_named_only_content' in at:
+                    rec_in_loop_over['named_only'] = True
+                elif 'field:Container::named_content' in at:
+                    rec_in_loop_over['named_content'] = True
+                elif 'field:Container::content' in at:
+                    rec_in_loop_over['content'] = True
+    chk.decide(R5, chk.key(R5, 'named-children'), rec_in_loop_over['named_content'],
+               'the walk recurses into every entry of named_content',
+               'the binding walk (%s) does not recurse over the whole of Container::named_content (loops ' % w.short +
+               'recursing over: %s): named children that sit in `content` are skipped by both loops'
+               % sorted(k for k, v in rec_in_loop_over.items() if v), w.loc(0))
+    chk.decide(R5, chk.key(R5, 'content-children'), rec_in_loop_over['content'],
+               'the walk recurses into the unnamed containers of content',
+               'validate_external_bindings_container no longer recurses over Container::content', w.loc(0))
